@@ -1,7 +1,581 @@
-//! C08 — stub (not built yet).
+//! C08 — RTR server answers depend on the query bytes only.
+//!
+//! A client byte stream is delivered to one real `rtr::Server` connection
+//! under a generated schedule (chunking, notifications, settle points). The
+//! output is compared with the output of the reference schedule (all bytes in
+//! one chunk, no notifications) on a fresh server with the same source.
 
 use crate::engine::*;
+use crate::rtrsim::{self, strat, Data, Delta, Item, MemCtl, RawPdu, RefSource, Tm};
+use proptest::prelude::*;
+use rpki::rtr::server::{NotifySender, Server};
+use serde::{Deserialize, Serialize};
+use std::io;
+
+pub const RULE: &str = "streams: random client byte stream of 1..8 PDUs (serial query with known / out-of-window / never-issued / \
+foreign-session state, reset query, wrong-length query, unsupported PDU type, version 3..255, version switch, error report, \
+raw garbage, truncated tail) x random schedule (chunks of 1..11 bytes mostly, Notify events, Settle points present or absent \
+after each event) x random small source (payload sets of all types, 0..3 earlier serials, diff window, ready or not). Oracle: \
+(1) output minus Serial Notify PDUs == output of the reference schedule (one chunk, no notify) on a fresh server; (2) output \
+parses into whole PDUs with an independent parser, no Serial Notify between Cache Response and End of Data, #Serial Notify <= \
+#Notify events; (3) on the reference output, for the stream prefix up to the first malformed PDU every complete well-formed \
+query has exactly the expected response (Cache Response, payload multiset per version, End of Data with state and timing / \
+Cache Reset / Error 2 when not ready) and the first malformed one an Error PDU. Non-trivial = schedule with >=1 chunk boundary \
+strictly inside a PDU and >=1 Notify. splits: complete enumeration of every single-PDU stream of a fixed list (25 streams) x \
+every 2-chunk split x 6 notify placements x {ready, not ready}; non-trivial = split strictly inside the PDU with a notify \
+(distinct by construction).";
+
+const SETTLE_TURNS: u32 = 200;
+
+//------------ case -------------------------------------------------------------
+
+#[derive(Clone, Debug, Serialize, Deserialize)]
+pub struct SrcSpec {
+    pub session: u16,
+    pub start_serial: u32,
+    pub initial: Vec<Item>,
+    /// Updates applied before the connection starts (one serial each).
+    pub updates: Vec<Vec<Delta>>,
+    pub retention: u8,
+    pub ready: bool,
+    pub timing: Tm,
+    pub flip: bool,
+}
+
+#[derive(Clone, Debug, Serialize, Deserialize)]
+pub enum Q {
+    /// Serial query naming the state `back` updates before the current one.
+    Serial { version: u8, back: u8 },
+    /// Serial query with a serial the source never issued (current + off).
+    SerialUnknown { version: u8, off: u32 },
+    SerialForeign { version: u8 },
+    Reset { version: u8 },
+    /// Serial (typ 1) or reset (typ 2) query header with a wrong length, followed by `extra`.
+    WrongLen { version: u8, typ: u8, len: u32, extra: Vec<u8> },
+    /// A PDU type a router must not send.
+    Unsupported { version: u8, typ: u8, len: u32, extra: Vec<u8> },
+    ErrorReport { version: u8, code: u16 },
+    Raw(Vec<u8>),
+}
+
+#[derive(Clone, Debug, PartialEq, Eq, Serialize, Deserialize)]
+pub enum Ev {
+    Chunk(u16),
+    Notify,
+    Settle,
+}
+
+#[derive(Clone, Debug, Serialize, Deserialize)]
+pub struct Case {
+    pub src: SrcSpec,
+    pub pdus: Vec<Q>,
+    /// Bytes removed from the end of the stream (fewer than the last PDU has).
+    pub trunc: u8,
+    pub sched: Vec<Ev>,
+}
+
+//------------ building -----------------------------------------------------------
+
+fn build_source(s: &SrcSpec) -> RefSource {
+    let src = RefSource::new(s.session, s.start_serial, Data::from_items(&s.initial), s.retention as usize, s.timing);
+    for u in &s.updates {
+        src.update(u, None);
+    }
+    src.set_ready(s.ready);
+    src.set_flip(s.flip);
+    src
+}
+
+fn q_bytes(q: &Q, src: &RefSource) -> Vec<u8> {
+    let cur = src.current().serial;
+    match q {
+        Q::Serial { version, back } => {
+            let b = (*back as usize).min(src.history_len() - 1);
+            rtrsim::enc_serial_query(*version, src.session(), src.back(b).unwrap().serial)
+        }
+        Q::SerialUnknown { version, off } => {
+            rtrsim::enc_serial_query(*version, src.session(), cur.wrapping_add((*off).clamp(1, 0x7FFF_FFFF)))
+        }
+        Q::SerialForeign { version } => rtrsim::enc_serial_query(*version, src.session() ^ 0x5A5A, cur),
+        Q::Reset { version } => rtrsim::enc_reset_query(*version),
+        Q::WrongLen { version, typ, len, extra } => {
+            let typ = if *typ == 2 { 2 } else { 1 };
+            let right = if typ == 1 { 12 } else { 8 };
+            let len = if *len == right { right + 1 } else { *len };
+            let mut v = rtrsim::enc_header(*version, typ, src.session(), len);
+            v.extend_from_slice(extra);
+            v
+        }
+        Q::Unsupported { version, typ, len, extra } => {
+            let typ = match *typ {
+                1 | 2 => 0,
+                10 => 11,
+                t => t,
+            };
+            let mut v = rtrsim::enc_header(*version, typ, src.session(), *len);
+            v.extend_from_slice(extra);
+            v
+        }
+        Q::ErrorReport { version, code } => rtrsim::enc_error(*version, *code, &[], b"x"),
+        Q::Raw(b) => b.clone(),
+    }
+}
+
+//------------ execution ----------------------------------------------------------
+
+struct Exec {
+    out: Vec<u8>,
+    notify_events: u32,
+    reads: Vec<(u64, u32, u32)>,
+    consumed_at_notify: Vec<u64>,
+}
+
+fn exec(spec: &SrcSpec, bytes: &[u8], sched: &[Ev]) -> Result<Exec, Fail> {
+    let src = build_source(spec);
+    let r: Result<Exec, String> = rtrsim::block_on(false, async move {
+        let (server_end, client_end, ctl): (_, _, MemCtl) = rtrsim::mem_pair(usize::MAX, usize::MAX);
+        let mut notify = NotifySender::new();
+        let listener = futures_util::stream::iter(vec![Ok::<_, io::Error>(server_end)]);
+        Server::new(listener, notify.clone(), src)
+            .run()
+            .await
+            .map_err(|e| format!("Server::run failed: {}", e))?;
+        rtrsim::settle(&ctl, SETTLE_TURNS).await?;
+        let mut pos = 0usize;
+        let mut notify_events = 0;
+        let mut consumed_at_notify = Vec::new();
+        for ev in sched {
+            match ev {
+                Ev::Chunk(n) => {
+                    let end = (pos + *n as usize).min(bytes.len());
+                    ctl.feed(&bytes[pos..end]);
+                    pos = end;
+                }
+                Ev::Notify => {
+                    consumed_at_notify.push(ctl.consumed_by_server());
+                    notify_events += 1;
+                    notify.notify();
+                }
+                Ev::Settle => {
+                    rtrsim::settle(&ctl, SETTLE_TURNS).await?;
+                }
+            }
+        }
+        ctl.feed(&bytes[pos..]);
+        rtrsim::settle(&ctl, SETTLE_TURNS).await?;
+        ctl.close_to_server();
+        rtrsim::settle(&ctl, SETTLE_TURNS).await?;
+        if !ctl.server_gone() {
+            return Err("connection task still alive after end of stream".into());
+        }
+        let out = ctl.take_output();
+        drop(client_end);
+        Ok(Exec { out, notify_events, reads: ctl.server_reads(), consumed_at_notify })
+    });
+    r.map_err(Fail::new)
+}
+
+//------------ model ----------------------------------------------------------------
+
+fn sorted(mut v: Vec<(bool, Item)>) -> Vec<(bool, Item)> {
+    v.sort();
+    v
+}
+
+/// Checks the reference output against the model for the prefix of the stream
+/// up to the first malformed PDU. Returns the number of well-formed queries.
+fn check_model(c: &Case, src: &RefSource, reference: &[RawPdu], obs: &mut Obs) -> Result<usize, Fail> {
+    let cur = src.current();
+    let session = src.session();
+    let mut it = reference.iter();
+    let mut negotiated: Option<u8> = None;
+    let mut well_formed = 0usize;
+    let mut complete = true;
+    let (mut saw_reset, mut saw_data) = (false, false);
+    let n = c.pdus.len();
+    for (i, q) in c.pdus.iter().enumerate() {
+        if i + 1 == n && c.trunc > 0 {
+            complete = false;
+            break;
+        }
+        let version = match q {
+            Q::Serial { version, .. } | Q::SerialUnknown { version, .. } | Q::SerialForeign { version } | Q::Reset { version }
+            | Q::WrongLen { version, .. } | Q::Unsupported { version, .. } => *version,
+            Q::ErrorReport { .. } | Q::Raw(_) => {
+                complete = false;
+                break;
+            }
+        };
+        // version rules come first
+        let malformed: Option<(&str, Option<u16>)> = match negotiated {
+            None if version > 2 => Some(("version > 2 on first query", Some(4))),
+            Some(v) if v != version => Some(("version switch", None)),
+            _ => match q {
+                Q::WrongLen { .. } => Some(("wrong length", None)),
+                Q::Unsupported { .. } => Some(("unsupported PDU type", None)),
+                _ => None,
+            },
+        };
+        if let Some((what, code)) = malformed {
+            obs.label("model-malformed");
+            let p = it.next().ok_or_else(|| Fail::new(format!("PDU #{} ({}) got no answer at all", i, what)))?;
+            ensure!(p.typ == 10, "PDU #{} ({}): expected an Error PDU, got type {} ({:?})", i, what, p.typ, p);
+            if let Some(code) = code {
+                ensure!(p.field == code, "PDU #{} ({}): Error code {} expected {}", i, what, p.field, code);
+                ensure!(p.version == 2, "PDU #{} ({}): Error PDU carries version {}, expected the maximum supported (2)", i, what, p.version);
+            }
+            complete = false; // behaviour afterwards is unspecified
+            break;
+        }
+        negotiated = Some(version);
+        well_formed += 1;
+        let v = version;
+        if !c.src.ready {
+            let p = it.next().ok_or_else(|| Fail::new(format!("query #{} got no answer (source not ready)", i)))?;
+            ensure!(p.typ == 10 && p.field == 2 && p.version == v,
+                "query #{}: source not ready, expected Error code 2 version {}, got {:?}", i, v, p);
+            continue;
+        }
+        // what the source holds for this query
+        let (expect_items, what): (Option<Vec<(bool, Item)>>, &str) = match q {
+            Q::Reset { .. } => (Some(cur.data.restricted(v).items().into_iter().map(|i| (true, i)).collect()), "reset query"),
+            Q::Serial { back, .. } => {
+                let b = (*back as usize).min(src.history_len() - 1);
+                let old = src.back(b).unwrap();
+                if src.diff_available(session, old.serial) {
+                    (Some(old.data.restricted(v).diff_to(&cur.data.restricted(v)).into_iter().map(|(i, a)| (a, i)).collect()), "serial query")
+                } else {
+                    (None, "serial query outside the diff window")
+                }
+            }
+            Q::SerialUnknown { off, .. } => {
+                let s = cur.serial.wrapping_add((*off).clamp(1, 0x7FFF_FFFF));
+                if src.diff_available(session, s) {
+                    // wrapped onto a real serial: cannot happen with <= 4 snapshots
+                    return Err(Fail::new("generator: unknown serial is known"));
+                }
+                (None, "serial query with unknown serial")
+            }
+            Q::SerialForeign { .. } => (None, "serial query with foreign session"),
+            _ => unreachable!(),
+        };
+        match expect_items {
+            None => {
+                saw_reset = true;
+                let p = it.next().ok_or_else(|| Fail::new(format!("query #{} ({}) got no answer", i, what)))?;
+                ensure!(p.typ == 8 && p.version == v, "query #{} ({}): expected Cache Reset version {}, got {:?}", i, what, v, p);
+            }
+            Some(exp) => {
+                saw_data = true;
+                let p = it.next().ok_or_else(|| Fail::new(format!("query #{} ({}) got no answer", i, what)))?;
+                ensure!(p.typ == 3 && p.version == v && p.field == session,
+                    "query #{} ({}): expected Cache Response version {} session {}, got {:?}", i, what, v, session, p);
+                let mut got = Vec::new();
+                let eod = loop {
+                    let p = it.next().ok_or_else(|| Fail::new(format!("query #{} ({}): response not terminated by End of Data", i, what)))?;
+                    ensure!(p.version == v, "query #{} ({}): PDU of version {} inside a version {} response: {:?}", i, what, p.version, v, p);
+                    if p.typ == 7 {
+                        break p;
+                    }
+                    match p.payload_item() {
+                        Some(x) => {
+                            ensure!(x.1.min_version() <= v, "query #{} ({}): payload type not defined for version {}: {:?}", i, what, v, p);
+                            got.push(x)
+                        }
+                        None => return Err(Fail::new(format!("query #{} ({}): unexpected PDU inside response: {:?}", i, what, p))),
+                    }
+                };
+                ensure!(sorted(got.clone()) == sorted(exp.clone()),
+                    "query #{} ({}) version {}: payload PDUs {:?} differ from the source's {:?}", i, what, v, sorted(got), sorted(exp));
+                ensure!(eod.field == session && eod.serial() == Some(cur.serial),
+                    "query #{} ({}): End of Data names session {} serial {:?}, source state is {} / {}", i, what, eod.field, eod.serial(), session, cur.serial);
+                if v >= 1 {
+                    ensure!(eod.timing() == Some(c.src.timing), "query #{} ({}): End of Data timing {:?}, source timing {:?}", i, what, eod.timing(), c.src.timing);
+                }
+            }
+        }
+    }
+    obs.label_if(saw_reset, "model-cache-reset");
+    obs.label_if(saw_data, "model-data-response");
+    if complete {
+        let rest: Vec<&RawPdu> = it.collect();
+        ensure!(rest.is_empty(), "server sent PDUs no query asked for: {:?}", rest);
+        obs.label("model-complete");
+    }
+    Ok(well_formed)
+}
+
+//------------ run --------------------------------------------------------------------
+
+fn run_case(c: &Case, obs: &mut Obs) -> CheckResult {
+    let src = build_source(&c.src);
+    ensure!(!c.pdus.is_empty(), "empty stream");
+    let parts: Vec<Vec<u8>> = c.pdus.iter().map(|q| q_bytes(q, &src)).collect();
+    let mut bytes: Vec<u8> = parts.concat();
+    let last_len = parts.last().unwrap().len();
+    let trunc = (c.trunc as usize).min(last_len.saturating_sub(1));
+    bytes.truncate(bytes.len() - trunc);
+    let c = &Case { trunc: trunc as u8, ..c.clone() };
+
+    // PDU boundaries of the stream as sent
+    let mut bounds = Vec::new();
+    let mut o = 0usize;
+    for p in &parts {
+        bounds.push((o, (o + p.len()).min(bytes.len())));
+        o += p.len();
+    }
+
+    // reference schedule
+    let reference = exec(&c.src, &bytes, &[])?;
+    let ref_pdus = rtrsim::parse_pdus(&reference.out)
+        .map_err(|e| Fail::new(format!("reference output does not parse into PDUs: {} (bytes {:02x?})", e, reference.out)))?;
+    ensure!(!ref_pdus.iter().any(|p| p.typ == 0), "Serial Notify without a notification in the reference run");
+    let well_formed = check_model(c, &src, &ref_pdus, obs)?;
+    obs.label_if(well_formed >= 2, "multi-query");
+    obs.label_if(!c.src.ready, "not-ready");
+
+    // generated schedule
+    let run = exec(&c.src, &bytes, &c.sched)?;
+    // classification of the schedule
+    let mut fed = 0usize;
+    let mut inside = false;
+    for ev in &c.sched {
+        if let Ev::Chunk(n) = ev {
+            fed = (fed + *n as usize).min(bytes.len());
+            if fed < bytes.len() && bounds.iter().any(|(a, b)| *a < fed && fed < *b) {
+                inside = true;
+            }
+        }
+    }
+    let header_units: Vec<u64> = reference.reads.iter().filter(|r| r.1 == 8).map(|r| r.0).collect();
+    let partial_header = run.consumed_at_notify.iter().any(|c| header_units.iter().any(|h| *h < *c && *c < *h + 8));
+    obs.label_if(partial_header, "notify-while-partial-header");
+    obs.label_if(run.notify_events > 0, "has-notify");
+    obs.label_if(inside, "split-inside-pdu");
+    obs.nontrivial_if(inside && run.notify_events > 0);
+
+    let verdict = (|| -> CheckResult {
+        let pdus = rtrsim::parse_pdus(&run.out).map_err(|e| {
+            Fail::new(format!("output does not parse into whole PDUs: {}; output {:02x?}; reference {:02x?}", e, run.out, reference.out))
+        })?;
+        let notifies = pdus.iter().filter(|p| p.typ == 0).count() as u32;
+        ensure!(notifies <= run.notify_events, "{} Serial Notify PDUs for {} notify events", notifies, run.notify_events);
+        let mut in_response = false;
+        for p in &pdus {
+            match p.typ {
+                3 => in_response = true,
+                7 => in_response = false,
+                0 => {
+                    ensure!(!in_response, "Serial Notify between Cache Response and End of Data: {:?}", pdus);
+                    let st = src.current();
+                    ensure!(p.field == src.session() && p.serial() == Some(st.serial),
+                        "Serial Notify names session {} serial {:?}, source state is {} / {}", p.field, p.serial(), src.session(), st.serial);
+                }
+                _ => {}
+            }
+        }
+        let stripped: Vec<&RawPdu> = pdus.iter().filter(|p| p.typ != 0).collect();
+        let refs: Vec<&RawPdu> = ref_pdus.iter().collect();
+        ensure!(stripped == refs,
+            "responses depend on the schedule: with schedule {:?} the server sent {:?}, with the reference schedule {:?}", c.sched, stripped, refs);
+        Ok(())
+    })();
+    match verdict {
+        Ok(()) => Ok(()),
+        Err(f) if partial_header => Err(Fail::sig(
+            "C08:notify-while-partial-header",
+            format!("notification while 1..7 bytes of a query header had been read: {}", f.msg),
+        )),
+        Err(f) => Err(f),
+    }
+}
+
+//------------ strategies ---------------------------------------------------------------
+
+fn src_strategy() -> BoxedStrategy<SrcSpec> {
+    (
+        any::<u16>(),
+        prop_oneof![3 => prop::sample::select(vec![0u32, 1, u32::MAX, u32::MAX - 1, 0x7FFF_FFFF, 0x8000_0000]), 1 => any::<u32>()],
+        prop::collection::vec(strat::item(), 0..7),
+        prop::collection::vec(prop::collection::vec(strat::delta(), 1..4), 0..4),
+        0u8..4,
+        prop::bool::weighted(0.9),
+        strat::timing(),
+        any::<bool>(),
+    )
+        .prop_map(|(session, start_serial, initial, updates, retention, ready, timing, flip)| SrcSpec {
+            session, start_serial, initial, updates, retention, ready, timing, flip,
+        })
+        .boxed()
+}
+
+fn q_strategy(base: u8) -> BoxedStrategy<Q> {
+    let ver = prop_oneof![24 => Just(base), 1 => prop::sample::select(vec![0u8, 1, 2]), 1 => prop::sample::select(vec![3u8, 4, 255])];
+    let extra = prop::collection::vec(any::<u8>(), 0..10);
+    prop_oneof![
+        30 => (ver.clone(), 0u8..4).prop_map(|(version, back)| Q::Serial { version, back }),
+        6 => (ver.clone(), prop::sample::select(vec![1u32, 2, 1000, 0x7FFF_FFFF])).prop_map(|(version, off)| Q::SerialUnknown { version, off }),
+        6 => ver.clone().prop_map(|version| Q::SerialForeign { version }),
+        25 => ver.clone().prop_map(|version| Q::Reset { version }),
+        4 => (ver.clone(), 1u8..=2, prop::sample::select(vec![0u32, 7, 8, 9, 11, 12, 13, 16, 24, u32::MAX]), extra.clone())
+            .prop_map(|(version, typ, len, extra)| Q::WrongLen { version, typ, len, extra }),
+        4 => (ver.clone(), prop::sample::select(vec![0u8, 3, 4, 5, 6, 7, 8, 9, 11, 12, 255]), prop::sample::select(vec![8u32, 12, 20, 0]), extra)
+            .prop_map(|(version, typ, len, extra)| Q::Unsupported { version, typ, len, extra }),
+        2 => (ver, 0u16..12).prop_map(|(version, code)| Q::ErrorReport { version, code }),
+        2 => prop::collection::vec(any::<u8>(), 1..20).prop_map(Q::Raw),
+    ]
+    .boxed()
+}
+
+fn sched_strategy() -> BoxedStrategy<Vec<Ev>> {
+    let step = (
+        prop_oneof![8 => 1u16..=11, 1 => 12u16..=40],
+        prop::bool::weighted(0.8),
+        prop::bool::weighted(0.35),
+        prop::bool::weighted(0.8),
+        prop::bool::weighted(0.1),
+    );
+    prop::collection::vec(step, 0..14)
+        .prop_map(|steps| {
+            let mut v = Vec::new();
+            for (n, s1, notify, s2, before) in steps {
+                if before && notify {
+                    v.push(Ev::Notify);
+                }
+                v.push(Ev::Chunk(n));
+                if s1 {
+                    v.push(Ev::Settle);
+                }
+                if notify && !before {
+                    v.push(Ev::Notify);
+                    if s2 {
+                        v.push(Ev::Settle);
+                    }
+                }
+            }
+            v
+        })
+        .boxed()
+}
+
+fn case_strategy(_: Tier) -> BoxedStrategy<Case> {
+    (src_strategy(), 0u8..=2)
+        .prop_flat_map(|(src, base)| {
+            (
+                Just(src),
+                prop::collection::vec(q_strategy(base), 1..=8),
+                prop_oneof![9 => Just(0u8), 1 => 1u8..12],
+                sched_strategy(),
+            )
+        })
+        .prop_map(|(src, pdus, trunc, sched)| Case { src, pdus, trunc, sched })
+        .boxed()
+}
+
+//------------ exhaustive 2-chunk splits --------------------------------------------------
+
+fn single_streams() -> Vec<Q> {
+    let mut v = Vec::new();
+    for version in 0..=2u8 {
+        v.push(Q::Serial { version, back: 0 });
+        v.push(Q::Serial { version, back: 1 });
+        v.push(Q::Serial { version, back: 2 });
+        v.push(Q::SerialUnknown { version, off: 1 });
+        v.push(Q::SerialForeign { version });
+        v.push(Q::Reset { version });
+    }
+    v.push(Q::WrongLen { version: 1, typ: 1, len: 8, extra: vec![] });
+    v.push(Q::WrongLen { version: 1, typ: 2, len: 12, extra: vec![0, 0, 0, 1] });
+    v.push(Q::Unsupported { version: 1, typ: 5, len: 8, extra: vec![] });
+    v.push(Q::Unsupported { version: 2, typ: 255, len: 12, extra: vec![1, 2, 3, 4] });
+    v.push(Q::Reset { version: 3 });
+    v.push(Q::Serial { version: 255, back: 0 });
+    v.push(Q::ErrorReport { version: 1, code: 0 });
+    v
+}
+
+const PLACEMENTS: u64 = 6;
+
+fn enum_src(ready: bool) -> SrcSpec {
+    SrcSpec {
+        session: 0x1234,
+        start_serial: u32::MAX - 1,
+        initial: vec![
+            Item::V4 { addr: 0x0A00_0000, len: 8, max: 24, asn: 64496 },
+            Item::V6 { hi: 0x2001_0db8_0000_0000, lo: 0, len: 32, max: 48, asn: 1 },
+            Item::Key { ski: [7; 20], asn: 2, info: vec![0x30, 1, 2] },
+            Item::Aspa { customer: 3, providers: vec![4, 5] },
+        ],
+        updates: vec![
+            vec![Delta::Add(Item::V4 { addr: 0xC0A8_0000, len: 16, max: 16, asn: 0 }), Delta::Remove(0)],
+            vec![Delta::ReplaceProviders(0, vec![9]), Delta::Add(Item::Key { ski: [8; 20], asn: 2, info: vec![0x30] })],
+        ],
+        retention: 1,
+        ready,
+        timing: (3600, 600, 7200),
+        flip: false,
+    }
+}
+
+fn split_len(q: &Q) -> u64 {
+    let src = build_source(&enum_src(true));
+    q_bytes(q, &src).len() as u64
+}
+
+fn split_table() -> Vec<(usize, u64)> {
+    // (stream index, number of split positions 0..=len)
+    single_streams().iter().enumerate().map(|(i, q)| (i, split_len(q) + 1)).collect()
+}
+
+fn count_splits(_: Tier, _: u64) -> u64 {
+    split_table().iter().map(|(_, n)| n * PLACEMENTS * 2).sum()
+}
+
+fn make_split(_: Tier, _: u64, mut idx: u64) -> Case {
+    let streams = single_streams();
+    for (i, n) in split_table() {
+        let block = n * PLACEMENTS * 2;
+        if idx >= block {
+            idx -= block;
+            continue;
+        }
+        let ready = idx % 2 == 0;
+        idx /= 2;
+        let placement = idx % PLACEMENTS;
+        let s = (idx / PLACEMENTS) as u16;
+        let sched = match placement {
+            0 => vec![Ev::Chunk(s), Ev::Settle],
+            1 => vec![Ev::Notify, Ev::Settle, Ev::Chunk(s), Ev::Settle],
+            2 => vec![Ev::Chunk(s), Ev::Notify, Ev::Settle],
+            3 => vec![Ev::Chunk(s), Ev::Settle, Ev::Notify, Ev::Settle],
+            4 => vec![Ev::Chunk(s), Ev::Settle, Ev::Notify],
+            _ => vec![Ev::Chunk(s), Ev::Settle, Ev::Chunk(u16::MAX), Ev::Settle, Ev::Notify, Ev::Settle],
+        };
+        return Case { src: enum_src(ready), pdus: vec![streams[i].clone()], trunc: 0, sched };
+    }
+    unreachable!("index out of range")
+}
 
 pub fn property() -> Property {
-    Property { id: "C08", rule: "", assumptions: vec![], subs: vec![] }
+    Property {
+        id: "C08",
+        rule: RULE,
+        assumptions: vec![
+            "single-threaded scheduler owned by the harness (tokio current_thread); arrival order = generated schedule",
+            "behaviour after the first malformed PDU is compared only against the reference schedule",
+            "the PayloadSource is constant during a connection",
+            "the shape 'notify-while-partial-header' is recognised from the server's read pattern (8-byte header reads)",
+        ],
+        subs: vec![
+            PropSub {
+                name: "streams",
+                strategy: case_strategy,
+                cases: |t| t.pick(250_000, 6_000_000),
+                run: run_case,
+                floors: &[("notify-while-partial-header", 0.20), ("multi-query", 0.25), ("model-data-response", 0.3)],
+            }
+            .boxed(),
+            EnumSub { name: "splits", count: count_splits, make: make_split, run: run_case, exhaustive: true }.boxed(),
+        ],
+    }
 }
